@@ -69,7 +69,7 @@ pub fn routes_agree(ase: &AsepriteFile, images: bool) -> Result<u64, Violation> 
 }
 
 pub fn run(ctx: &Ctx) -> i32 {
-    let n = ctx.tier.pick(6_000u64, 120_000u64);
+    let n = ctx.tier.pick(30_000u64, 300_000u64);
     let mut sum = run_cases(ctx, n, |i| {
         let mut rng = Rng::derive(ctx.seed, "C19", i);
         let mut cfg = GenCfg::small();
